@@ -61,15 +61,24 @@ def set (d : Dict) (k : Key) (v : Nat) : Dict :=
   if k ∈ d.keys then d.map (fun kv => if kv.1 = k then (k, v) else kv) else d ++ [(k, v)]
 end Dict
 
+/-- insert into a sorted list, after the elements that are `≤` (stable) -/
+def insertBy {α : Type} (le : α → α → Bool) (x : α) : List α → List α
+  | [] => [x]
+  | y :: ys => if le y x then y :: insertBy le x ys else x :: y :: ys
+
+/-- `sorted(...)`: stable insertion sort (structurally recursive, so that the kernel can evaluate
+the model on concrete graphs) -/
+def isort {α : Type} (le : α → α → Bool) (l : List α) : List α := l.foldl (fun acc x => insertBy le x acc) []
+
 /-- `sorted(tuple of ints)` -/
-def sortNat (l : List Nat) : List Nat := l.mergeSort (fun a b => decide (a ≤ b))
+def sortNat (l : List Nat) : List Nat := isort (fun a b => decide (a ≤ b)) l
 /-- tuple comparison -/
 def keyLe (a b : Key) : Bool := decide (a ≤ b)
 /-- `sorted(set of argkeys)` -/
-def sortKeys (l : List Key) : List Key := l.mergeSort keyLe
+def sortKeys (l : List Key) : List Key := isort keyLe l
 /-- `sorted(dict)` followed by `dict[k]`: the entries in key order (keys of a dict are distinct) -/
 def sortEntries {α : Type} (d : List (Key × α)) : List (Key × α) :=
-  d.mergeSort (fun a b => keyLe a.1 b.1)
+  isort (fun a b => keyLe a.1 b.1) d
 
 /-- `set(...)`: drop repeated elements -/
 def dedup {α : Type} [DecidableEq α] : List α → List α
@@ -203,11 +212,12 @@ def handleConditional (F : Array Node) (fac0 fac1 fac2 : Dict) (sf0 : Nat) (z1 z
     let mas := sortKeys (dedup (fac1.keys ++ fac2.keys))
     let entries := mas.map fun k => (k, (fac1.get k, fac2.get k))
     let needZ := entries.any fun e => e.2.1.isNone || e.2.2.isNone
-    -- `z = as_ufl(0.0)`: its index in `F` if it is a node of `F`
-    let zi := F.toList.idxOf Node.zero
-    let pending := needZ && !(zi < F.size)
-    let Fz := if pending then (graphInsert F Node.zero).1 else F
-    let z := (graphInsert Fz Node.zero).2
+    -- `z = as_ufl(0.0)`: its index in `F` if it is a node of `F`; if it is needed and is not a
+    -- node of `F`, the model inserts it and remembers the pending `KeyError`
+    let pending := needZ && !(F.toList.idxOf Node.zero < F.size)
+    let Fz := if needZ then graphInsert F Node.zero else (F, 0)
+    let z := Fz.2
+    let Fz := Fz.1
     match buildDict (fun F (x : Option Nat × Option Nat) =>
         .ok (mkCond F sf0 (x.1.getD z) (x.2.getD z))) Fz entries [] with
     | .error e => .error e
@@ -236,8 +246,8 @@ def argPos : Kind → Nat
 
 /-- `build_argument_indices`: indices of the modified arguments, sorted by ordering key -/
 def argIndices (S : Array Node) : List Nat :=
-  ((List.range S.size).filter fun i => isArgKind (kindAt S i)).mergeSort
-    fun i j => decide (argPos (kindAt S i) ≤ argPos (kindAt S j))
+  isort (fun i j => decide (argPos (kindAt S i) ≤ argPos (kindAt S j)))
+    ((List.range S.size).filter fun i => isArgKind (kindAt S i))
 
 /-- class name in the message of the default handler -/
 def Kind.clsName : Kind → String
@@ -350,7 +360,7 @@ the graph.  They are stated on the argkey sets that the algorithm assigns to the
 * `prod`: the keys `sorted(k0 + k1)` for `k0` of the first and `k1` of the second operand are
   pairwise distinct (else `factors[argkey] = …` overwrites a term).  Operands with disjoint
   argument numbers always satisfy this.
-* the graph is in topological order and the `pos` of the argument nodes are their ranks
+* the graph is in topological order, every node has the number of operands of its class, and the `pos` of the argument nodes are their ranks
   `0 … n-1` (so that `AV[pos]` is that node);
 * a target of a form of rank ≥ 1 depends on arguments or is the literal zero (else its
   contribution is dropped: "Zero form of arity 1 or higher: make factors empty"); the re-keyed
@@ -371,11 +381,12 @@ def wfNode (facs : Array Dict) (n : Node) : Bool :=
 
 def wfTarget (avIndex : Nat → Nat) (S : Array Node) (rank : Nat) (facs : Array Dict) (t : Nat) : Bool :=
   let d := facs[t]?.getD []
-  if d.isEmpty then rank == 0 || kindAt S t == .zero
-  else decide (d.keys.map fun k => sortNat (k.map avIndex)).Nodup
+  decide (t < S.size) &&
+  (if d.isEmpty then rank == 0 || kindAt S t == .zero
+   else decide (d.keys.map fun k => sortNat (k.map avIndex)).Nodup)
 
 def wfCheck (S : Graph) (rank : Nat) (r : FResult) : Bool :=
-  closedB S.nodes &&
+  closedB S.nodes && arityB S.nodes &&
   -- the ordering keys of the arguments are their ranks (the exporter's convention for `arg pos _`)
   decide ((r.argIndices.map fun si => argPos (kindAt S.nodes si)) = List.range r.argIndices.length) &&
   S.nodes.all (wfNode r.nodeFacs) &&
